@@ -135,8 +135,8 @@ func addrStrs(m *Material, is []int) []string {
 func (w *World) dkgBytes(d DkgRow) []byte {
 	m := w.Mat
 	res := &puredkg.Result{
-		Eon: uint64(d.Eon), NumKeypers: uint64(m.N), Threshold: uint64(d.T), Keyper: 0,
-		SecretKeyShare: m.Sets[d.Set].EonSecretKeyShare(0),
+		Eon: uint64(d.Eon), NumKeypers: uint64(m.N), Threshold: uint64(d.T), Keyper: uint64(d.Keyper),
+		SecretKeyShare: m.Sets[d.Set].EonSecretKeyShare(d.Keyper % m.N),
 		PublicKey:      m.Sets[d.Set].EonPublicKey(),
 	}
 	for i := 0; i < d.NShares; i++ {
